@@ -62,7 +62,8 @@ def label(n):
 
 
 def enum_sites(top_nodes, depth):
-    """-> (sites, valued); sites: {(prefix, sep, id): (n, list type)}, valued: paths ending on a node with a value"""
+    """-> (sites, valued); sites: {(prefix, sep, id): (n, list type, all match counts seen in one sibling list)}, valued:
+    paths ending on a node with a value"""
     from pybufrkit import templatedata as T
     sites = {}
     valued = set()
@@ -72,8 +73,10 @@ def enum_sites(top_nodes, depth):
             return
         for i, k in Counter(label(x) for x in sibs).items():
             s = sites.get((prefix, sep, i))
-            if s is None or s[0] < k:
-                sites[(prefix, sep, i)] = (k, lt)
+            if s is None:
+                sites[(prefix, sep, i)] = (k, lt, frozenset([k]))
+            else:
+                sites[(prefix, sep, i)] = (k, lt, s[2] | {k}) if s[0] < k else (s[0], s[1], s[2] | {k})
         for x in sibs:
             p = prefix + sep + label(x)
             if isinstance(x, T.ValueDataNode):
@@ -101,8 +104,11 @@ def merge_sites(parts):
     for s, v in parts:
         valued |= v
         for k, x in s.items():
-            if k not in sites or sites[k][0] < x[0]:
+            if k not in sites:
                 sites[k] = x
+            else:
+                y = sites[k]
+                sites[k] = (x[0], x[1], x[2] | y[2]) if y[0] < x[0] else (y[0], y[1], x[2] | y[2])
     return sites, valued
 
 
@@ -158,15 +164,18 @@ def site_queries(rng, sites, valued, labels, n_sub, spec):
     # -- the sites: child / attribute sites as enumerated, `>` sites derived from them
     cand = []    # (kind, lt, n, prefix, sep, id, path of the matched node)
     dmax = {}
-    for (prefix, sep, i), (n, lt) in sorted(sites.items()):
-        cand.append((sep, lt, n, prefix, sep, i, prefix + sep + i))
+    for (prefix, sep, i), (n, lt, cs) in sorted(sites.items()):
+        cand.append((sep, lt, n, prefix, sep, i, prefix + sep + i, cs))
         st = split_steps(prefix)
         for k in range(len(st) + 1):
             q = ''.join(st[:k])
-            if (q, i) not in dmax or dmax[(q, i)][0] < n:
-                dmax[(q, i)] = (n, lt, prefix + sep + i)
-    for (q, i), (n, lt, p) in sorted(dmax.items()):
-        cand.append(('>', lt, n, q, '>', i, p))
+            y = dmax.get((q, i))
+            if y is None:
+                dmax[(q, i)] = (n, lt, prefix + sep + i, cs)
+            else:
+                dmax[(q, i)] = (n, lt, prefix + sep + i, cs | y[3]) if y[0] < n else (y[0], y[1], y[2], cs | y[3])
+    for (q, i), (n, lt, p, cs) in sorted(dmax.items()):
+        cand.append(('>', lt, n, q, '>', i, p, cs))
     # n = 0: an id of the message that does not occur in the sibling lists reached by the prefix
     zero = []
     labs = sorted(labels)
@@ -177,16 +186,16 @@ def site_queries(rng, sites, valued, labels, n_sub, spec):
         for pre in ps[:spec.get('zero_sites', 1)]:
             absent = [l for l in labs if (pre, sep, l) not in sites]
             if absent:
-                zero.append((sep, 'absent', 0, pre, sep, rng.choice(absent), None))
+                zero.append((sep, 'absent', 0, pre, sep, rng.choice(absent), None, frozenset([0])))
     rng.shuffle(prefixes)
     for pre in prefixes[:spec.get('zero_sites', 1)]:
         absent = [l for l in labs if (pre, l) not in dmax]
         if absent:
-            zero.append(('>', 'absent', 0, pre, '>', rng.choice(absent), None))
+            zero.append(('>', 'absent', 0, pre, '>', rng.choice(absent), None, frozenset([0])))
 
     def emit(site, slices, full):
-        kind, lt, n, prefix, sep, i, p = site
-        cell = '%s|%s|%d' % (kind, lt, n)
+        kind, lt, n, prefix, sep, i, p, cs = site
+        cell = '%s|%s|%d|%s' % (kind, lt, n, ','.join(str(c) for c in sorted(cs) if c <= n))
         qk = 'ca' if sep != '>' else 'desc'
         for sl in slices:
             sfx = suffix(p, full) if p is not None else ''
@@ -254,7 +263,7 @@ def site_queries(rng, sites, valued, labels, n_sub, spec):
         for qk, body in bodies[:spec.get('subset_bodies', 2)]:
             add(qk, '', body, None)
             for sl in grid(min(n_sub, MAX_N)):
-                add(qk, '@' + sl, body, '@|subsets|%d|full' % n_sub)
+                add(qk, '@' + sl, body, '@|subsets|%d|%d|full' % (n_sub, n_sub))
     return out, cells
 
 
